@@ -698,6 +698,10 @@ impl Property for P13 {
         C13::Encode { values, sink: None, cap: None, io_seed: r.next_u64() }
     }
 
+    fn probes() -> Vec<usize> {
+        vec![pb::exact_fit_sink, pb::one_short_sink, pb::empty_sink_cap0, pb::internal_write_boundary_eq_capacity]
+    }
+
     fn rule() -> &'static str {
         "each evaluation is one value sequence (1-3 values of 57 types: all integer widths at head boundaries, floats, strings/bytes \
          around 0/23/24/255/256(/65535/65536) bytes, Option/Result, tuples, arrays, Vec, BTreeMap, Duration, IP/socket addresses, Int, \
